@@ -123,6 +123,10 @@ func (fn bindFunctionObject) construct(argumentList []Value) Value {
 	obj := fn.target
 	switch value := obj.value.(type) {
 	case nativeFunctionObject:
+		if value.construct == nil {
+			// 15.3.4.5.2 step 2: the target has no [[Construct]] internal method
+			panic(fn.target.runtime.panicTypeError("%v is not a constructor", objectValue(obj)))
+		}
 		return value.construct(obj, fn.argumentList)
 	case nodeFunctionObject:
 		argumentList = append(fn.argumentList, argumentList...)
